@@ -13,6 +13,7 @@ def sweeps(ctx):
     return [
         ("c-small", 21, 500 if q else 8000, ["txs=2..5", "workers=2,3,4", "opts=shared,ben"]),
         ("c-sticky", 22, 300 if q else 5000, ["txs=3..8", "workers=2,3", "strat=sticky", "opts=shared,ben,destroy"]),
+        ("c-chain", 24, 800 if q else 12000, ["txs=3..6", "workers=2,3,4", "opts=chain,shared", "strat=straggler"]),
         ("c-pct", 23, 300 if q else 5000, ["txs=3..8", "workers=2,3,4", "strat=pct", "opts=shared,ben,create"]),
     ]
 
